@@ -250,6 +250,23 @@ class Interp:
         res, abn = self.seq(e['elems'], st)
         return [Out('val', ('array', tuple(v)), s) for v, s in res] + abn
 
+    def ev_Repeat(self, e, st):
+        """`[v; N]` with a literal element; N is read from the array type"""
+        import re as _re
+        m = _re.match(r'^\[(.+); (\d+)\]$', hirq.strip_refs(e.get('ty') or ''))
+        outs = []
+        for o in self.ev(e['e'], st):
+            if o.kind != 'val':
+                outs.append(o); continue
+            if m and int(m.group(2)) <= 64 and o.val[0] == 'lit' and isinstance(o.val[1], int) and not isinstance(o.val[1], bool):
+                if m.group(1) == 'u8' and 0 <= o.val[1] < 256:
+                    outs.append(Out('val', ('lit', bytes([o.val[1]]) * int(m.group(2))), o.st))
+                else:
+                    outs.append(Out('val', ('array', (o.val,) * int(m.group(2))), o.st))
+            else:
+                outs.append(Out('val', ('unk', 'Repeat'), o.st))
+        return outs
+
     def ev_Struct(self, e, st):
         exprs = [f['e'] for f in e['fields']]
         names = [f['name'] for f in e['fields']]
@@ -341,6 +358,15 @@ class Interp:
                 r = bin_term(op, a, b)
                 if op in ('Add', 'Sub', 'Mul', 'Shl') and a[0] == 'lit' and b[0] == 'lit' and r[0] == 'lit' and isinstance(r[1], int) and not isinstance(r[1], bool):
                     rng = INT_RANGE.get(hirq.strip_refs(e.get('ty') or ''))
+                    if op == 'Shl' and rng is not None:
+                        # `<<` drops the bits shifted out; only a shift amount >= the bit width is an overflow
+                        width = (rng[1] - rng[0] + 1).bit_length() - 1
+                        if 0 <= b[1] < width:
+                            v = (a[1] << b[1]) & ((1 << width) - 1)
+                            if rng[0] < 0 and v > rng[1]:
+                                v -= 1 << width
+                            outs.append(Out('val', ('lit', v), s))
+                            continue
                     if rng is not None and not (rng[0] <= r[1] <= rng[1]):
                         # exact evaluation on literals: the debug-profile overflow check would fire here
                         outs.append(Out('div', UNIT, s.event(('overflow', op, a, b, e))))
@@ -627,10 +653,15 @@ class Interp:
                     if kind != 'no':
                         res.extend(self.ev(e['body'], s2))
                 return res
-            outs.extend(self.loop_common(e, o.st, one, always=True))
+            # the iteration that is analysed stands for *any* iteration: it starts in every state an earlier one can leave
+            # behind in the locals declared outside the body (a flag hoisted out of the loop is seen with both its values)
+            def back_states(s, one=one):
+                return [b.st for b in one(s) if b.kind == 'val' or (b.kind == 'cont' and (b.target is None or b.target == e.get('id')))]
+            for s0 in self.carried_states(e, o.st, back_states, keep_initial=True):
+                outs.extend(self.loop_common(e, s0, one, always=True))
         return outs
 
-    def carried_states(self, loop, st, runner):
+    def carried_states(self, loop, st, runner, keep_initial=False):
         """The generic iteration of a loop starts in any state an earlier iteration can leave behind.  Candidates are the locals
         declared outside the loop body and assigned inside it; the values they can carry are found by a small fixpoint iteration:
         run the body (runner(state) -> states that reach the back edge) from the states known so far and collect the candidates'
@@ -660,6 +691,9 @@ class Interp:
                         u, s2 = s.fresh('carried')
                         t = ('carried', b, u[2])
                         nxt.append(s2.set(b, t).event(('loop-carried', b, t, loop, st.env[b])) if events else s2.set(b, t))
+                        if keep_initial and events:
+                            # the first iteration (and the exit after none) sees the exact initial value
+                            nxt.append(s.event(('loop-carried', b, st.env[b], loop, st.env[b])))
                     else:
                         for v in vals[b]:
                             nxt.append(s.set(b, v).event(('loop-carried', b, v, loop, st.env[b])) if events else s.set(b, v))
@@ -965,6 +999,37 @@ class Interp:
                         else:
                             outs.append(Out('val', UNIT, s))
                 return outs
+        if cal.endswith('::copy_from_slice') and len(e['args']) == 1:
+            # dst[a..b].copy_from_slice(src) on a local byte array whose content is literal: evaluated exactly
+            recv = hirq.peel_refs(e['recv'])
+            tgt, rng = (recv['e'], recv['idx']) if recv['k'] == 'Index' else (recv, None)
+            tgt = hirq.peel_refs(tgt)
+            if tgt['k'] == 'Path' and tgt.get('res') == 'local':
+                cur = st.env.get(tgt['bind'])
+                if cur is not None and cur[0] == 'lit' and isinstance(cur[1], bytes):
+                    res, abn = self.seq(([rng] if rng is not None else []) + [e['args'][0]], st)
+                    outs = []
+                    for vals, s in res:
+                        src = vals[-1]
+                        lo, hi = 0, len(cur[1])
+                        okr = True
+                        if rng is not None:
+                            b = vals[0]
+                            if b[0] == 'struct' and b[1].rsplit('::', 1)[-1] in ('RangeFrom', 'RangeTo', 'Range', 'RangeFull') \
+                                    and all(v[0] == 'lit' and isinstance(v[1], int) for n_, v in b[2]):
+                                fl = dict(b[2])
+                                lo = fl['start'][1] if 'start' in fl else 0
+                                hi = fl['end'][1] if 'end' in fl else len(cur[1])
+                            else:
+                                okr = False
+                        if okr and src[0] == 'lit' and isinstance(src[1], bytes):
+                            if not (0 <= lo <= hi <= len(cur[1])) or hi - lo != len(src[1]):
+                                outs.append(Out('div', UNIT, s.event(('panic', cal, (cur, src), e))))
+                            else:
+                                outs.append(Out('val', UNIT, s.set(tgt['bind'], ('lit', cur[1][:lo] + src[1] + cur[1][hi:]))))
+                        else:
+                            outs.append(Out('val', UNIT, s.set(tgt['bind'], ('unk', 'copy_from_slice')).event(('call', cal, tuple(vals), e))))
+                    return outs + abn
         res, abn = self.seq([e['recv']] + e['args'], st)
         outs = []
         for vals, s in res:
@@ -1524,6 +1589,17 @@ def builtin_summary(I, cal, args, node, st):
             return [Out('val', ('vec', arr[0][1]), st)]
     if cal.endswith('alloc::vec::Vec::<T>::new') or cal.endswith('alloc::vec::Vec::<T>::with_capacity'):
         return [Out('val', ('vec', ()), st)]
+    if name in ('is_empty', 'len') and args and args[0][0] == 'array':
+        return [Out('val', ('lit', len(args[0][1]) == 0 if name == 'is_empty' else len(args[0][1])), st)]
+    if name in ('min', 'max') and len(args) == 2 and all(a[0] == 'lit' and isinstance(a[1], int) and not isinstance(a[1], bool) for a in args) \
+            and ('core::cmp::Ord' in cal or cal.startswith('core::num::<impl ') or cal.startswith('core::cmp::')):
+        return [Out('val', ('lit', min(args[0][1], args[1][1]) if name == 'min' else max(args[0][1], args[1][1])), st)]
+    if name in ('from_be_bytes', 'from_le_bytes') and cal.startswith('core::num::<impl ') and len(args) == 1:
+        bs = args[0][1] if args[0][0] == 'lit' and isinstance(args[0][1], bytes) else \
+            bytes(x[1] & 0xff for x in args[0][1]) if args[0][0] == 'array' and all(x[0] == 'lit' and isinstance(x[1], int) for x in args[0][1]) else None
+        ity = cal[len('core::num::<impl '):].split('>')[0]
+        if bs is not None and INT_RANGE.get(ity) is not None:
+            return [Out('val', ('lit', int.from_bytes(bs, 'big' if name == 'from_be_bytes' else 'little', signed=ity[0] == 'i')), st)]
     if name in ('to_be_bytes', 'to_le_bytes') and cal.startswith('core::num::<impl ') and len(args) == 1 and args[0][0] == 'lit' and isinstance(args[0][1], int):
         ity = cal[len('core::num::<impl '):].split('>')[0]
         rng = INT_RANGE.get(ity)
@@ -1591,6 +1667,20 @@ def builtin_summary(I, cal, args, node, st):
             else:
                 outs.append(o)
         return outs
+    if name == 'fold' and ('iterator::Iterator::' in cal or 'core::iter::traits::iterator::Iterator>::' in cal) \
+            and len(args) == 3 and args[2][0] in ('closure', 'fn') and args[1][0] == 'lit' and I.literal_elems(args[0]) is not None:
+        # a fold over a literal sequence from a literal seed is evaluated exactly, element by element
+        states, abn = [(args[1], st)], []
+        for x in I.literal_elems(args[0]):
+            nxt = []
+            for acc, s in states:
+                for o in I.apply(args[2], [acc, x], node, s):
+                    if o.kind == 'val':
+                        nxt.append((o.val, o.st))
+                    else:
+                        abn.append(o)
+            states = nxt
+        return [Out('val', acc, s) for acc, s in states] + abn
     if I.combinators and name == 'fold' and ('iterator::Iterator::' in cal or 'core::iter::traits::iterator::Iterator>::' in cal) \
             and len(args) == 3 and args[1] == FALSE and args[2][0] in ('closure', 'fn'):
         # `fold(false, |acc, x| acc || p(x))` is `any(p)`: recognised when the step keeps `true` and, from `false`, yields p(x)
